@@ -470,6 +470,10 @@ class SpectralFrame(CoordinateFrame):
                 return coord.SpectralCoord(*args, self.unit[0])
 
     def coordinate_to_quantity(self, *coords):
+        if isinstance(coords[0], coord.SpectralCoord):
+            # may be given as wavelength, frequency or energy: a SpectralCoord
+            # converts between them, the transform that gets it may not
+            return coords[0].to(self.unit[0])
         if hasattr(coords[0], 'unit'):
             return coords[0]
         return coords[0] * self.unit[0]
